@@ -402,6 +402,84 @@ class Fn(object):
                                 self._defs[r].append((i, None))
         return self._defs.get(ref, [])
 
+    # ---------------- reaching definitions ----------------
+    def reaching_defs(self, ref, use_node):
+        """def nodes (see defs_of_var) of variable `ref` that reach `use_node` (strong updates)"""
+        defs = dict((d, v) for (d, v) in self.defs_of_var(ref))
+        dpos = {}
+        for d in defs:
+            p = self.point_of(d)
+            if p is not None:
+                dpos.setdefault(p[0], []).append((p[1], d))
+        for b in dpos:
+            dpos[b].sort()
+        IN = {self.entry: frozenset(['<entry>'])}
+        OUT = {}
+        work = [self.entry]
+        while work:
+            b = work.pop()
+            cur = IN[b]
+            for (_, d) in dpos.get(b, []):
+                cur = frozenset([d])
+            if OUT.get(b) == cur:
+                continue
+            OUT[b] = cur
+            for (s, _) in self.succ_edges(b):
+                new = cur if s not in IN else (IN[s] | cur)
+                if s not in IN or new != IN[s]:
+                    IN[s] = new
+                    work.append(s)
+                elif s not in OUT:
+                    work.append(s)
+        p = self.point_of(use_node)
+        if p is None or p[0] not in IN:
+            return set()
+        cur = IN[p[0]]
+        for (ix, d) in dpos.get(p[0], []):
+            if ix < p[1]:
+                cur = frozenset([d])
+        return set(cur)
+
+    def def_reaches_only_through(self, ref, def_node, use_node, gates):
+        """every path def -> use on which the definition is not overwritten passes one of the gate edges"""
+        other = [d for (d, _) in self.defs_of_var(ref) if d != def_node]
+        pd, pu = self.point_of(def_node), self.point_of(use_node)
+        kill = set()
+        for d in other:
+            p = self.point_of(d)
+            if p is not None and p[0] != pu[0] and p[0] != pd[0]:
+                kill.add(p[0])
+        if pd[0] == pu[0] and pd[1] < pu[1]:
+            return False
+        seen = set()
+        stack = []
+        for (s, lab, tag) in self.state_succ(pd[0], None):
+            if not self._is_cut(pd[0], s, lab, None, gates) and s not in kill:
+                stack.append((s, tag))
+        while stack:
+            st = stack.pop()
+            if st in seen:
+                continue
+            seen.add(st)
+            b, tag = st
+            if b == pu[0]:
+                return False
+            for (s, lab, stag) in self.state_succ(b, tag):
+                if self._is_cut(b, s, lab, tag, gates) or s in kill:
+                    continue
+                stack.append((s, stag))
+        return True
+
+    def _is_cut(self, b, s, lab, tag, gates):
+        for e in gates:
+            if len(e) == 2 and e == (b, s):
+                return True
+            if len(e) == 3 and e == (b, s, lab):
+                return True
+            if len(e) == 4 and e == (b, s, lab, tag):
+                return True
+        return False
+
     # ---------------- reachability ----------------
     # Confluence blocks: when a logical operator is not lowered to branches (it sits under
     # ExprWithCleanups), clang joins the short-circuit edge and the RHS block in one block that
